@@ -175,8 +175,13 @@ func hostRemovedMidPlan(c *Ctx, idx int) {
 func unpreparedAlongThePlan(c *Ctx, idx int) {
 	r := c.R
 	hosts := 2 + idx%3
-	errs := []string{"Overloaded", "IsBootstrapping", "ServerError", "TruncateError"}
+	// the last three are retried once only (the policy counts): the re-prepare in front of them must not use that one retry up
+	errs := []string{"Overloaded", "IsBootstrapping", "ServerError", "TruncateError", "Unavailable", "ReadTimeout", "WriteTimeoutBatchLog"}
 	first := errs[idx%len(errs)]
+	nErr := hosts - 1 // how many times the script answers with the error before a host answers rows
+	if idx%len(errs) >= 4 {
+		nErr = 1
+	}
 	key := fmt.Sprintf("unprepared-along-the-plan/h%d/%s", hosts, first)
 	scenario := map[string]interface{}{"kind": "unprepared-along-the-plan", "idx": idx}
 	c.Step("c05 %s", key)
@@ -192,10 +197,16 @@ func unpreparedAlongThePlan(c *Ctx, idx int) {
 		if a.Token != tok {
 			return fakecass.Outcome{}
 		}
-		if a.K >= hosts { // the script is consulted once per host (the automatic UNPREPARED answers do not consult it)
+		if a.K > nErr { // the script is consulted once per execution (the automatic UNPREPARED answers do not consult it)
 			return fakecass.Rows()
 		}
 		switch first {
+		case "Unavailable":
+			return fakecass.Err(first, &message.Unavailable{ErrorMessage: tok + " unavailable", Consistency: primitive.ConsistencyLevelQuorum, Required: 2, Alive: 1})
+		case "ReadTimeout":
+			return fakecass.Err(first, &message.ReadTimeout{ErrorMessage: tok + " read timeout", Consistency: primitive.ConsistencyLevelQuorum, Received: 2, BlockFor: 2, DataPresent: false})
+		case "WriteTimeoutBatchLog":
+			return fakecass.Err(first, &message.WriteTimeout{ErrorMessage: tok + " write timeout", Consistency: primitive.ConsistencyLevelQuorum, Received: 0, BlockFor: 2, WriteType: primitive.WriteTypeBatchLog})
 		case "IsBootstrapping":
 			return fakecass.Err(first, &message.IsBootstrapping{ErrorMessage: tok + " bootstrapping"})
 		case "ServerError":
@@ -232,16 +243,16 @@ func unpreparedAlongThePlan(c *Ctx, idx int) {
 			executed[a.Host] = true
 		}
 	}
-	if unprep >= 2 {
+	if unprep >= 2 || (unprep >= 1 && nErr == 1) {
 		r.NonTrivial(key)
 	}
 	if werr != nil || reply == nil {
-		r.Violate(mon.Violation{Signature: "C05/unprepared-along-the-plan/no-reply", Detail: fmt.Sprintf("%d hosts, all without the statement, the first %d answer %s after the re-prepare: no reply (attempts %s)", hosts, hosts-1, first, describe(attempts)), Scenario: scenario, Witness: attempts})
+		r.Violate(mon.Violation{Signature: "C05/unprepared-along-the-plan/no-reply", Detail: fmt.Sprintf("%d hosts, all without the statement, the first %d execution(s) answered %s after the re-prepare: no reply (attempts %s)", hosts, nErr, first, describe(attempts)), Scenario: scenario, Witness: attempts})
 		return
 	}
 	ri := replyInfoComp([]string{"", "lz4"}[idx%2], reply)
 	if ri.Kind != "Rows" || ri.Tok != tok {
-		r.Violate(mon.Violation{Signature: "C05/unprepared-along-the-plan/not-failed-over-to-healthy-host/" + first, Detail: fmt.Sprintf("%d hosts, all without the statement (it is in the proxy's prepared cache); the first %d answer %s once re-prepared, the last one would answer rows: the client got %s %q; the request was executed on %d host(s) (attempts %s)", hosts, hosts-1, first, ri.Kind, ri.ErrMsg, len(executed), describe(attempts)), Scenario: scenario, Witness: attempts})
+		r.Violate(mon.Violation{Signature: "C05/unprepared-along-the-plan/not-failed-over-to-healthy-host/" + first, Detail: fmt.Sprintf("%d hosts, all without the statement (it is in the proxy's prepared cache); the first %d execution(s) are answered %s once re-prepared, the next would be answered with rows and the policy prescribes another attempt: the client got %s %q; the request was executed on %d host(s) (attempts %s)", hosts, nErr, first, ri.Kind, ri.ErrMsg, len(executed), describe(attempts)), Scenario: scenario, Witness: attempts})
 	}
 }
 
